@@ -29,16 +29,17 @@ fn k_len() {
 
 // fixed-size key and the same bytes as a slice give the same cipher (state equality); clone gives equal state.
 // T' abstracted by a record / replay uninterpreted function (cipher.rs; licensed by c_t_prime): the second constructor
-// must present T' with the same arguments in the same order.
+// must present T' with the same arguments in the same order.  (The Result-returning constructor runs first, in record
+// mode: with it second Kani 0.68 reports the Ok value as Err - a spurious failure, see the report.)
 // @ob name=k_slice_same props=C11,C12 fn=sm4::Sm4::new_from_slice,sm4::Sm4::new uses=c_t_prime timeout=300
 #[kani::proof]
 #[kani::stub(t_prime, uftp::f)]
 #[kani::unwind(37)]
 fn k_slice_same() {
     let k: [u8; 16] = kani::any();
-    let a = Sm4::new(&Array(k));
-    uftp::replay_fwd();
     let b = Sm4::new_from_slice(&k[..]).unwrap();
+    uftp::replay_fwd();
+    let a = Sm4::new(&Array(k));
     assert!(uftp::done() && uftp::calls() == 32);
     assert!(eq32(&a.rk, &b.rk));
 }
@@ -59,10 +60,12 @@ fn k_clone() {
 fn c_weak() {
     let k: [u8; 16] = kani::any();
     assert!(Sm4::weak_key_test(&Array(k)).is_ok());
-    let plain = Sm4::new(&Array(k));
-    uftp::replay_fwd();
     match Sm4::new_checked(&Array(k)) {
-        Ok(c) => assert!(uftp::done() && eq32(&c.rk, &plain.rk)),
+        Ok(c) => {
+            uftp::replay_fwd();
+            let plain = Sm4::new(&Array(k));
+            assert!(uftp::done() && uftp::calls() == 32 && eq32(&c.rk, &plain.rk));
+        }
         Err(_) => assert!(false),
     }
 }
